@@ -157,3 +157,51 @@ func VerifC18_Follow() {
 	verifAssert("other.follower.got.everything", len(other.got) == K)
 	verifReach("end")
 }
+
+// C18 (two writers, one follower): the stdout and the stderr reader of a process write into the same
+// buffer concurrently. Whatever the interleaving - the follower may take its time inside its callback -
+// a live follower sees the lines in exactly the order in which the log holds them (what a later tail or
+// range request returns), each once, and every writer's own lines in the order it wrote them.
+func VerifC18_TwoWriters() {
+	const K = 2
+	b := NewLogBuffer(10)
+	f := &verifFollower{id: "f1", tail: 0}
+	b.GetLogsAndSubscribe(f) // REAL code
+	done := make(chan int)
+	for _, w := range []string{"out", "err"} {
+		w := w
+		go func() {
+			for i := 0; i < K; i++ {
+				verifYield("writer:" + w)
+				b.Write(w + strconv.Itoa(i)) // REAL code
+			}
+			done <- 1
+		}()
+	}
+	<-done
+	<-done
+	held := b.GetLogRange(2*K, 0) // REAL code: the last 2K lines = the whole log
+	verifAssert("all.lines.held", len(held) == 2*K)
+	verifAssert("follower.got.every.line.once", len(f.got) == 2*K)
+	if len(held) == len(f.got) {
+		for i := range held {
+			if held[i] != f.got[i] {
+				verifFail("follower.order.differs.from.the.log")
+				break
+			}
+		}
+	}
+	// per-writer order
+	for _, w := range []string{"out", "err"} {
+		next := 0
+		for _, l := range f.got {
+			if len(l) > 3 && l[:3] == w {
+				if l != w+strconv.Itoa(next) {
+					verifFail("writer.order.lost")
+				}
+				next++
+			}
+		}
+	}
+	verifReach("end")
+}
